@@ -17,6 +17,11 @@ Shape(name) ==
   CASE name = "join" -> [type |-> "m.room.member", ms |-> "join", key |-> TRUE, c |-> {"membership", "displayname", "reason"}, tpi |-> "none", tk |-> {}]
     [] name = "invite" -> [type |-> "m.room.member", ms |-> "invite", key |-> TRUE, c |-> {"membership", "displayname"}, tpi |-> "none", tk |-> {}]
     [] name = "invite3p" -> [type |-> "m.room.member", ms |-> "invite", key |-> TRUE, c |-> {"membership", "third_party_invite", "displayname"}, tpi |-> "obj", tk |-> {"signed", "display_name"}]
+    \* third_party_invite objects on member events that are NOT invites: the sender's server must still sign; in v11 the
+    \* redacted form keeps only `signed` and drops the field when nothing is left
+    [] name = "join3p" -> [type |-> "m.room.member", ms |-> "join", key |-> TRUE, c |-> {"membership", "third_party_invite", "displayname"}, tpi |-> "obj", tk |-> {"display_name"}]
+    [] name = "leave3ps" -> [type |-> "m.room.member", ms |-> "leave", key |-> TRUE, c |-> {"membership", "third_party_invite"}, tpi |-> "obj", tk |-> {"signed", "display_name"}]
+    [] name = "ban3pe" -> [type |-> "m.room.member", ms |-> "ban", key |-> TRUE, c |-> {"membership", "third_party_invite"}, tpi |-> "obj", tk |-> {}]
     [] name = "rjoin" -> [type |-> "m.room.member", ms |-> "join", key |-> TRUE, c |-> {"membership", "join_authorised_via_users_server", "displayname"}, tpi |-> "none", tk |-> {}]
     [] name = "create" -> [type |-> "m.room.create", ms |-> "", key |-> TRUE, c |-> {"creator", "room_version", "m.federate", "predecessor"}, tpi |-> "none", tk |-> {}]
     [] name = "pl" -> [type |-> "m.room.power_levels", ms |-> "", key |-> TRUE, c |-> {"ban", "events", "invite", "users", "notifications", "kick"}, tpi |-> "none", tk |-> {}]
@@ -25,7 +30,7 @@ Shape(name) ==
     [] name = "redaction" -> [type |-> "m.room.redaction", ms |-> "", key |-> FALSE, c |-> {"redacts", "reason"}, tpi |-> "none", tk |-> {}]
     [] name = "hv" -> [type |-> "m.room.history_visibility", ms |-> "", key |-> TRUE, c |-> {"history_visibility", "x.unspec"}, tpi |-> "none", tk |-> {}]
     [] name = "message" -> [type |-> "m.room.message", ms |-> "", key |-> FALSE, c |-> {"body", "msgtype"}, tpi |-> "none", tk |-> {}]
-Shapes == {"join", "invite", "invite3p", "rjoin", "create", "pl", "jr", "aliases", "redaction", "hv", "message"}
+Shapes == {"join", "invite", "invite3p", "join3p", "leave3ps", "ban3pe", "rjoin", "create", "pl", "jr", "aliases", "redaction", "hv", "message"}
 
 TopKeysOf(name, v) == TopBase \cup (IF Shape(name).key THEN {"state_key"} ELSE {})
                       \cup (IF v <= 2 THEN {"event_id"} ELSE {})
@@ -39,7 +44,7 @@ Event(name, v) ==
 \* keys whose mutation would change which servers must sign or which redaction table applies are left alone
 Structural == {"type", "sender", "event_id", "membership:content", "join_authorised_via_users_server", "third_party_invite"}
 Steps(name, v) ==
-  {<<"none", "">>, <<"redact", "">>, <<"unsigned", "">>}
+  {<<"none", "">>, <<"redact", "">>, <<"unsigned", "">>, <<"prehash", "">>}   \* prehash: the event carried a stale `hashes` before it was signed
   \cup {<<"top", k>> : k \in (TopKeysOf(name, v) \ {"type", "sender", "event_id", "unsigned"}) \cup {"hashes"}}
   \cup {<<"content", k>> : k \in Shape(name).c \ {"membership", "join_authorised_via_users_server", "third_party_invite"}}
   \cup {<<"tpi", k>> : k \in Shape(name).tk}
@@ -55,10 +60,11 @@ Next == /\ phase = 0 /\ phase' = 1 /\ UNCHANGED <<v, name>>
 RECURSIVE SignAll(_, _, _)
 SignAll(e, sigs, S) == IF S = {} THEN [e |-> e, sigs |-> sigs]
                        ELSE LET s == CHOOSE s \in S : TRUE  r == HashAndSign(e, sigs, s, v) IN SignAll(r.e, r.sigs, S \ {s})
-Signed == SignAll(Event(name, v), [s \in Servers |-> NoSig], signers)
+Unsigned0 == IF step[1] = "prehash" THEN [Event(name, v) EXCEPT !.top = @ @@ [k \in {"hashes"} |-> [stale |-> 1]]] ELSE Event(name, v)
+Signed == SignAll(Unsigned0, [s \in Servers |-> NoSig], signers)
 After ==
   LET e == Signed.e  sg == Signed.sigs IN
-  CASE step[1] = "none" -> [e |-> e, sigs |-> sg]
+  CASE step[1] \in {"none", "prehash"} -> [e |-> e, sigs |-> sg]
     [] step[1] = "redact" -> [e |-> RedactedCopy(e, v), sigs |-> sg]
     [] step[1] = "unsigned" -> [e |-> [e EXCEPT !.top["unsigned"] = 1], sigs |-> sg]
     [] step[1] = "top" -> [e |-> [e EXCEPT !.top[step[2]] = IF step[2] = "hashes" THEN [junk |-> 1] ELSE 1], sigs |-> sg]
@@ -71,7 +77,7 @@ Expected == IF signers = {} THEN "err" ELSE Verify(After.e, After.sigs, v)     \
 
 \* ---- the sentences of C03 as theorems of the model
 Covered == Required \subseteq signers
-Thm_SignedVerifiesAll == (phase = 1 /\ step[1] = "none" /\ signers # {} /\ Covered) => Expected = "all"
+Thm_SignedVerifiesAll == (phase = 1 /\ step[1] \in {"none", "prehash"} /\ signers # {} /\ Covered) => Expected = "all"
 Thm_MissingSignerFails == (phase = 1 /\ step[1] = "none" /\ ~Covered) => Expected = "err"
 Thm_UnsignedIrrelevant == (phase = 1 /\ step[1] = "unsigned" /\ signers # {}) => Expected = Verify(Signed.e, Signed.sigs, v)
 \* a redacted copy verifies when the signer set covers the servers required for the redacted form
